@@ -563,15 +563,19 @@ theorem C20_velocity_time_under_lock :
 
 `Gen.LockTable.progs`: the canonical event path of every node-level kind and every front-end program, each
 critical section flagged "writes the protected data" from the source (`let mut` guard / `&mut` borrow /
-mutating temporary / closure calling a `&mut self` Channel method).  `wproj` is the write projection: the
-sections that do not write are erased (a reader only restricts the interleavings: it never changes the data
-or a later writer's input cell), a writing section `acq c … rel c` becomes `acq c, upd c, … rel c`. -/
+mutating temporary / closure calling a `&mut self` Channel method).  `wproj` is the write projection: a writing
+section `acq c … rel c` becomes `acq c, upd c, … rel c`; a section that does not write is ERASED (a reader only
+restricts the interleavings and never changes the data) — UNLESS the same program later opens a writing section of
+the same class: a read of `c` followed by a write of `c` in another section is the check-then-act shape (stale
+check), so that read section is KEPT and the program is then not strict two-phase. -/
 
 /-- write projection of a generated program (`er` = classes of the currently open erased sections) -/
 def wproj : List Cls → List (Bool × Bool × Cls) → List (DEv Cls Unit)
   | _, [] => []
   | er, (true, w, c) :: r =>
-    if w then .acq c :: .upd c id :: wproj er r else wproj (c :: er) r
+    if w then .acq c :: .upd c id :: wproj er r
+    else if r.any (fun e => e.1 && e.2.1 && e.2.2 == c) then .acq c :: wproj er r
+    else wproj (c :: er) r
   | er, (false, _, c) :: r =>
     if er.contains c then wproj (er.erase c) r else .rel c :: wproj er r
 
@@ -585,15 +589,19 @@ covered by `C20_programs_serializable` and is validated against all sequential o
 `forget_channel` (monitor, then ledger, inside the map section; then the tracker), `get_heartbeat` (node_state,
 then tracker), the block kinds/arms (one monitor after the other), the approval arms (`has_payment`, then
 `add_invoice`/`add_keysend`), the withdrawal arms (`check_onchain_tx`, then `unchecked_sign_onchain_tx`) and
-`Root.SignCommitmentTx` (two branches of one `if`, listed sequentially by the scan).  Every other program with
+`Root.SignCommitmentTx` (two branches of one `if`, listed sequentially by the scan), and three read-then-write
+programs whose later write section re-validates under the lock: `check_onchain_tx` (fee velocity) and the
+`ValidateCommitmentTx(2)` arms (the validation reads the ledger, the pre-v5 revocation re-validates and applies
+in ONE later section: `C20_ledger_sections_strict2pl`).  Every other program with
 a writing section — every ChannelHandler arm, new_channel, setup_channel, the allowlist and invoice kinds … —
 is a single strict two-phase write transaction. -/
 theorem C20_programs_not_two_phase :
     (progs.filter (fun p => !(strict2pl (wproj [] p.2)))).map (·.1) =
-      ["kind:forget_channel", "kind:get_heartbeat", "kind:add_block", "kind:remove_block",
-       "Root.PreapproveInvoice", "Root.PreapproveKeysend", "Root.ForgetChannel", "Root.SignWithdrawal",
-       "Root.SignHtlcTxMingle", "Root.SignCommitmentTx", "Root.AddBlock", "Root.RemoveBlock",
-       "Root.GetHeartbeat", "Root.SignAnchorspend", "Handler.fn.sign_withdrawal"] := by
+      ["kind:forget_channel", "kind:check_onchain_tx", "kind:get_heartbeat", "kind:add_block",
+       "kind:remove_block", "Root.PreapproveInvoice", "Root.PreapproveKeysend", "Root.ForgetChannel",
+       "Root.SignWithdrawal", "Root.SignHtlcTxMingle", "Root.SignCommitmentTx", "Root.AddBlock",
+       "Root.RemoveBlock", "Root.GetHeartbeat", "Root.SignAnchorspend", "Channel.ValidateCommitmentTx",
+       "Channel.ValidateCommitmentTx2", "Handler.fn.sign_withdrawal"] := by
   rfl
 
 /-- the shape of a concrete request: lock classes, update functions forgotten -/
